@@ -8,7 +8,9 @@ Inductive c16case :=
         (rows : list (list (Z * Z) * option (list (Z * Z))))   (* (feature values of one sample, implementation row) *)
         (idx : list (nat * nat))                                (* per term: (first index, count) of get_coef_indices *)
         (ncoefs : nat)                                          (* TermList.n_coefs *)
-| CFactorCompile (train : list (Z * Z)) (dummy : bool) (ek : (Z * Z) * (Z * Z)) (n : nat).
+| CFactorCompile (train : list (Z * Z)) (dummy : bool) (ek : (Z * Z) * (Z * Z)) (n : nat)
+| CSplineCompile (hist : list (list (Z * Z))) (user : option ((Z * Z) * (Z * Z))) (categorical : bool)
+                 (ek : (Z * Z) * (Z * Z)).   (* edge_knots_ of a spline term after compiling on the columns of hist in order *)
 
 Definition simple_eqb (a b : simple Q) : bool :=
   match a, b with
@@ -30,5 +32,12 @@ Definition check_case (c : c16case) : bool :=
       match compile_factor Qfops 0 dummy (map Qof train) with
       | Some s => simple_eqb s (SFactor 0 (Qof (fst ek)) (Qof (snd ek)) n dummy)
       | None => false
+      end
+  | CSplineCompile hist user cat ek =>
+      match compile_spline Qfops 0 (option_map Qpair user) cat 1 0 false None (map (map Qof) hist) with
+      | Some (SSpline _ lo hi _ _ _ _) =>
+          (* 1e-12 relative: `min - 0.5` of a categorical spline on non-integer data is rounded by binary64 *)
+          Qclose3 (1 # 1000000000000) (Qof (fst ek)) lo && Qclose3 (1 # 1000000000000) (Qof (snd ek)) hi
+      | _ => false
       end
   end.
